@@ -37,8 +37,15 @@ where
         Some(field::Value::Array(field::value::Array::String(values))) => {
             write_string_array_value(writer, values)
         }
-        _ => todo!("unhandled INFO field value: {:?}", value),
+        None => write_missing_value(writer),
     }
+}
+
+fn write_missing_value<W>(writer: &mut W) -> io::Result<()>
+where
+    W: Write,
+{
+    value::write_value(writer, None)
 }
 
 fn write_integer_value<W>(writer: &mut W, n: i32) -> io::Result<()>
